@@ -147,6 +147,11 @@ func ReadFile(r io.Reader) (File, []string, error) {
 		// [flags] applies to the one enum that follows it, not to everything after
 		nextRecordBitFlags = false
 	}
+	// the loop also ends when the tokenizer gives up (an unterminated comment or
+	// string, a stray byte, a failing reader): that is an error, not end of input
+	if err := tr.Err(); err != nil {
+		return f, warnings, err
+	}
 	return f, warnings, nil
 }
 
